@@ -39,7 +39,7 @@ ASSUMPTIONS = [
     'Linux /proc/self/fd is the census',
 ]
 
-WEIGHTS = {'add': 8, 'addpack': 8, 'pack': 6, 'clean': 3, 'repack': 3, 'delete': 3, 'loosen': 2, 'seekread': 3, 'aux_add': 2, 'import': 3, 'reopen': 2, 'addfail': 3}
+WEIGHTS = {'add': 8, 'addpack': 8, 'pack': 6, 'clean': 3, 'repack': 3, 'delete': 3, 'loosen': 2, 'seekread': 3, 'aux_add': 2, 'import': 3, 'reopen': 2, 'addfail': 3, 'nested': 4}
 
 
 # --------------------------------------------------------------------------------------------- (a)
